@@ -38,6 +38,7 @@ type Report struct {
 	Assume   []string
 	Trusted  []string
 	Residue  string
+	Extras   []extraResult
 	start    time.Time
 	seen     map[string]bool
 }
@@ -244,6 +245,17 @@ func (r *Report) Finish(evidenceDir string, known *knownFile, checkerCmd string,
 		"root":                r.P.Root,
 		"notes":               r.Notes,
 		"exhaustive":          true,
+	}
+	if r.Extras != nil {
+		cov["thorough_extras"] = r.Extras
+		n := 0
+		for _, e := range r.Extras {
+			if e.OK {
+				n++
+			}
+		}
+		cov["thorough_extras_ok"] = n
+		cov["programs"] = len(r.Extras)
 	}
 	ev := map[string]interface{}{
 		"property_id": r.Property,
